@@ -20,6 +20,8 @@ import (
 )
 
 type vfDB struct {
+	downCalls    int
+	downCallsFor time.Duration
 	name string // "primary" or "cache"
 
 	mu        sync.Mutex
@@ -100,6 +102,11 @@ func (db *vfDB) enter(kind, query string, opStart bool) error {
 	db.calls++
 	stall := db.stallFor
 	down := db.downFor
+	if db.downCalls > 0 {
+		// a short outage: only the next few calls find the database unreachable
+		db.downCalls--
+		down = db.downCallsFor
+	}
 	var err error
 	if db.crashed {
 		err = errVfCrashed
@@ -174,6 +181,12 @@ func (db *vfDB) setStall(d time.Duration) {
 func (db *vfDB) setDown(d time.Duration) {
 	db.mu.Lock()
 	db.downFor = d
+	db.mu.Unlock()
+}
+
+func (db *vfDB) setDownCalls(n int, d time.Duration) {
+	db.mu.Lock()
+	db.downCalls, db.downCallsFor = n, d
 	db.mu.Unlock()
 }
 
